@@ -74,6 +74,7 @@ ProbesOK(pr, amax, amin) ==
   /\ Len(pr) >= 1
   /\ FEq(pr[1].alpha, amax)                                      \* first probe is the requested maximum
   /\ \A k \in 1..(Len(pr) - 1) : FLt(pr[k + 1].alpha, pr[k].alpha) /\ ~pr[k].code_in   \* decreasing; rejected before
+  /\ \A k \in 1..(Len(pr) - 1) : FEq(pr[k + 1].alpha, pr[k].next)                      \* ... by the CONFIGURED factor, no other
   /\ \A k \in 1..Len(pr) : ~(pr[k].code_in /\ pr[k].obs_out) /\ ~(~pr[k].code_in /\ pr[k].obs_in)   \* predicates agree
   \* the search gives up only once the next probe would fall below alpha_min
   /\ ~pr[Len(pr)].code_in => FLt(pr[Len(pr)].next, amin)
